@@ -499,21 +499,27 @@ func (t *transpiler) evaluateSliceEvaluation(evaluation parser.SliceEvaluation, 
 }
 
 func (t *transpiler) evaluateStringSubscript(subscript parser.StringSubscript, valueUsed bool) (expressionResult, error) {
-	startIndexResult, err := t.evaluateIndex(subscript.StartIndex(), true)
-
-	if err != nil {
-		return expressionResult{}, err
-	}
-	endIndexResult, err := t.evaluateIndex(subscript.EndIndex(), true)
-
-	if err != nil {
-		return expressionResult{}, err
-	}
+	// Evaluate in source order: value, start index, end index.
 	value := subscript.Value()
 	str, err := t.evaluateExpression(value, true)
 
 	if err != nil {
 		return expressionResult{}, err
+	}
+	startIndexResult, err := t.evaluateIndex(subscript.StartIndex(), true)
+
+	if err != nil {
+		return expressionResult{}, err
+	}
+	endIndexResult := startIndexResult
+
+	// Only evaluate the end index if there is one, otherwise the start index would be evaluated twice.
+	if subscript.HasEndIndex() {
+		endIndexResult, err = t.evaluateIndex(subscript.EndIndex(), true)
+
+		if err != nil {
+			return expressionResult{}, err
+		}
 	}
 	s, err := t.converter.StringSubscript(str.firstValue(), startIndexResult.firstValue(), endIndexResult.firstValue(), valueUsed)
 
